@@ -26,6 +26,16 @@ stop flag inside one critical section (predicate, then the check after wait) are
 one read: the flag only ever goes false→true, and "work seen, then flag seen" leaves the same
 state as "flag seen".
 
+WorkThread (work_thread.cpp, read line by line against this model) is the instance
+`min = max = 1`, every task at one level: its threadProc has no exit check and no idle counter —
+in the instance the exit check `cab.length > min` is never true and `idle` is read by nothing
+else; its execute never spawns — in the instance `cab.length < max` is never true; pop, running
+set, status, cancel, completion callback, cleanup (clear queue under the lock, flag, notify_all,
+join) are statement-for-statement the same, including defects (a) and (b).  Differences outside
+the model: after cleanup `d_` is deleted (execute → null token, status → not-found, cancel → 3),
+the callback needs a non-null loop; the constructor wrote `stop_flag = false` AFTER starting the
+thread (data race, repaired by patch 02).
+
 Fields after `peak` are ghost history used only by the theorems.
 -/
 namespace Tbox.C05
